@@ -7,6 +7,7 @@ import pyModeS as pms
 from ref import cpr, frames
 from vlib import gen
 from vlib import variants
+from vlib import volume
 from vlib.core import Leg, call
 from checks import cprcommon as cg
 
@@ -18,7 +19,7 @@ RULE = ("two surface positions <= 0.2 NM apart (30% identical) encoded with the 
         "oracle: position()/surface_position() within one quantisation step of the newer frame's encoded position, None only if the "
         "reference NL of the two encoded latitudes differ; missing reference -> RuntimeError. non-trivial = receiver and target on "
         "opposite sides of the equator / lon 0 / +-180, or latitude within 0.02 deg of a transition"
-        ' Also: int / float / datetime time stamps (incl. a DST gap), hex letter case, receivers configured in whole degrees as ints, the same strings re-decoded with exchanged time stamps.')
+        ' Also: int / float / datetime time stamps (incl. a DST gap), hex letter case, receivers configured in whole degrees as ints, the same strings re-decoded with exchanged time stamps, 40 000 / 300 000 distinct pairs in a row in one process with identical pairs coming back later and four concurrent callers at the end (leg volume), the first position decodes of a freshly imported package made by four threads at once (leg first_use).')
 ASSUMPTIONS = ["msg0 is the even frame and msg1 the odd frame, as documented", "receiver within 45 NM great-circle of both targets and < 45 deg of longitude away",
                "pairs with an encoded latitude within 1e-9 deg of an NL transition are counted, not judged"]
 
@@ -52,7 +53,7 @@ def s_surface(draw):
     rd = draw(st.one_of(gen.ufloat(0, 44.5), gen.ufloat(0, 44.5), st.sampled_from([0.0, 44.5, 12.0])))
     rb = draw(st.one_of(gen.ufloat(0, 360), gen.ufloat(0, 360), st.sampled_from([0.0, 90.0, 180.0, 270.0])))
     return {"lat0": lat1, "lon0": lon1, "lat1": lat2, "lon1": lon2, "t0": t0, "t1": t1, "rdist": rd, "rbrg": rb,
-            "tc0": draw(st.integers(5, 8)), "tc1": draw(st.integers(5, 8)), "noref": draw(gen.uint(0, 29)) == 0, "as_datetime": draw(st.sampled_from([0, 0, 0, 1, 2, 3])), "hc": draw(gen.hexcase), "int_receiver": draw(gen.uint(0, 5)) == 0,
+            "tc0": draw(st.integers(5, 8)), "tc1": draw(st.integers(5, 8)), "noref": draw(gen.uint(0, 29)) == 0, "as_datetime": draw(st.sampled_from([0, 0, 0, 1, 2, 3, 4, 4])), "hc": draw(gen.hexcase), "int_receiver": draw(gen.uint(0, 5)) == 0,
             "ctx_bits0": draw(gen.ubits(15)), "ctx_bits1": draw(gen.ubits(15)), "ctx_icao": draw(gen.addresses),
             "df": draw(st.sampled_from([17, 17, 18]))}
 
@@ -146,5 +147,61 @@ def _encoded_lat_is_north_pole(leg, case):
 KNOWN_PREDICATES = {"encoded_latitude_is_plus_90": _encoded_lat_is_north_pole}
 
 
-LEGS = [Leg("surface_pair", chk_surface, strategy=s_surface, quick=32000, thorough=1200000,
+
+# ---------------------------------------------------------------- volume: one process, very many distinct pairs, revisits, concurrent callers at the end
+def vol_step(a, b, k):
+    lat = (a >> 11) / 9007199254740992.0 * 170.0 - 85.0
+    lon = (b >> 11) / 9007199254740992.0 * 360.0 - 180.0
+    e0, e1 = cpr.encode(lat, lon, 0, True), cpr.encode(lat, lon, 1, True)
+    if cpr.near_transition(e0["rlat"], 1e-9) or cpr.near_transition(e1["rlat"], 1e-9):
+        return None
+    tc = 5 + (a >> 2) % 4
+    head = "%02X%06X" % ((0x88 if a & 1 else 0x90) | ((a >> 6) & 7), b & 0xFFFFFF)
+    mv = (b >> 24) & 0x7F
+    f0 = head + "%014X%06X" % (cpr.me_surface(tc, 0, e0["yz"], e0["xz"], mv, 1, (b >> 31) & 127, 0), (a >> 20) & 0xFFFFFF)
+    f1 = head + "%014X%06X" % (cpr.me_surface(tc, 1, e1["yz"], e1["xz"], mv, 1, (b >> 31) & 127, 0), (a >> 21) & 0xFFFFFF)
+    if a & 2:
+        f0, f1 = f0.lower(), f1.lower()
+    newer = e0 if a & 32 else e1
+    r = call(pms.adsb.position, f0, f1, 2 if a & 32 else 1, 1 if a & 32 else 2, lat, lon)
+    if r[0] != "ok":
+        return "position(%s, %s, ..., %r, %r) raised %r" % (f0, f1, lat, lon, r[1:])
+    if r[1] is None:
+        n0, n1 = cpr.NL_set(e0["rlat"]), cpr.NL_set(e1["rlat"])
+        return "position(%s, %s, ...) returned None although both latitudes have NL=%s" % (f0, f1, sorted(n0)) if len(n0) == 1 and n0 == n1 else None
+    try:
+        la, lo = r[1]
+        ok = abs(la - newer["rlat"]) <= newer["dlat_step"] + 1e-9 and cpr.lon_diff(lo, newer["rlon"]) <= newer["dlon_step"] + 1e-9
+    except Exception:
+        ok = False
+    return None if ok else "position(%s, %s, %s, %r, %r) = %r, encoded position of the newer frame (%r, %r)" % (
+        f0, f1, "2, 1" if a & 32 else "1, 2", lat, lon, r[1], newer["rlat"], newer["rlon"])
+
+
+
+# ---------------------------------------------------------------- first calls of a freshly imported package, four threads at once
+def first_jobs(rng):
+    jobs = []
+    for _ in range(24):
+        lat, lon = rng.uniform(-80, 80), rng.uniform(-180, 180)
+        e0, e1 = cpr.encode(lat, lon, 0, True), cpr.encode(lat, lon, 1, True)
+        if cpr.near_transition(e0["rlat"], 1e-6) or cpr.near_transition(e1["rlat"], 1e-6) or cpr.NL(e0["rlat"]) != cpr.NL(e1["rlat"]):
+            continue
+        f0 = frames.tohex(frames.df17(rng.getrandbits(24), cpr.me_surface(6, 0, e0["yz"], e0["xz"], rng.getrandbits(7), 1, rng.getrandbits(7), 0)), 112, "U")
+        f1 = frames.tohex(frames.df17(rng.getrandbits(24), cpr.me_surface(6, 1, e1["yz"], e1["xz"], rng.getrandbits(7), 1, rng.getrandbits(7), 0)), 112, "U")
+
+        def judge(got, e1=e1):
+            try:
+                la, lo = got[1]
+                ok = got[0] == "ok" and abs(la - e1["rlat"]) <= e1["dlat_step"] + 1e-9 and cpr.lon_diff(lo, e1["rlon"]) <= e1["dlon_step"] + 1e-9
+            except Exception:
+                ok = False
+            return None if ok else "encoded position (%r, %r)" % (e1["rlat"], e1["rlon"])
+        jobs.append(("adsb.position", (f0, f1, 1, 2, lat, lon), judge))
+    return jobs
+
+
+LEGS = [
+    variants.first_use_leg(first_jobs),
+    volume.leg(vol_step, 140000, 300000, "140 000 (thorough: 300 000 per process) distinct surface pairs in one process; identical pairs decoded again after 4100 ... 263 000 others; four concurrent callers at the end", finale=500),Leg("surface_pair", chk_surface, strategy=s_surface, quick=32000, thorough=1200000,
             doc="even+odd surface pair, receiver anywhere within 45 NM, both time orders, position() and surface_position()")]
